@@ -42,6 +42,12 @@ Print Assumptions C02_percent_operators.
 (* int64_t %(uint64_t), int32_t %(uint32_t), int16_t %(uint16_t): the truncated remainder is returned whenever the return type can represent it *)
 Theorem C02_percent_operators_narrow_return_type : Percent_narrow_return_stmt. Proof. exact percent_narrow_return. Qed.
 Print Assumptions C02_percent_operators_narrow_return_type.
+(* narrow-return `%` overloads for every divisor: the truncated remainder converted to the return type (C narrowing) *)
+Theorem C02_percent_operators_narrow_return_wrap : Percent_narrow_wrap_stmt. Proof. exact percent_narrow_wrap. Qed.
+Print Assumptions C02_percent_operators_narrow_return_wrap.
+(* double operator%(double): every double l with 1 <= |trunc l| < 2^64; int64_t -> double rounding is a nearest value *)
+Theorem C02_percent_double : Percent_double_all_stmt. Proof. exact percent_double_all. Qed.
+Print Assumptions C02_percent_double.
 (* IntegerDom::div/divin/divexact/mod/modin/divmod/quoRem carry the conventions of the Integer functions they forward to *)
 Theorem C02_IntegerDom_wrappers : Dom_wrappers_stmt. Proof. exact dom_wrappers. Qed.
 Print Assumptions C02_IntegerDom_wrappers.
